@@ -32,10 +32,14 @@ structure Rules where
   localDiffers : Bool := true     -- a function-local type is not denoted by `pkg.T` (which names a package-level one)
 
 def Rules.strict : Rules := {}
-/-- the reading of types the code as it stands applies (every clause relaxed) -/
+/-- the reading of types the code applied before the repairs `fixes/c10-*.diff` (every clause relaxed) -/
 def Rules.code : Rules :=
   { throughAlias := false, lastVendor := true, variadicDiffers := false, instDiffers := false, genericDiffers := false,
     localDiffers := false }
+
+/-- the reading of types the code applies now (after `fixes/c10-*.diff`): everything as in the property
+except that `pkg.T` still matches every instantiation of a generic `T` (open finding) -/
+def Rules.repaired : Rules := { instDiffers := false }
 
 def unaliasTarget (R : Rules) : Ty → Ty
   | .alias u o t => if R.throughAlias then unaliasTarget R t else .alias u o t
